@@ -622,3 +622,94 @@ Proof.
   { induction segs as [|s r IH]; cbn; [reflexivity|]. rewrite app_length, IH. reflexivity. }
   rewrite !L, (segs1_lengths f W), (segs2_lengths f W). split; reflexivity.
 Qed.
+
+(* ------------------------------------------------------------------ *)
+(* size of the decimals: every float attribute of a well-formed set has *)
+(* an integer mantissa below 2^53 and a power of ten within 10^(+-22)   *)
+(* (both exactly representable in binary64: the regime in which one     *)
+(* correctly rounded division or multiplication gives the nearest double) *)
+(* ------------------------------------------------------------------ *)
+Lemma zdigits_acc_bound ds : forall a, 0 <= a ->
+  fold_left (fun a d => 10 * a + dval d) ds a < (a + 1) * 10 ^ Z.of_nat (length ds).
+Proof.
+  induction ds as [|d t IH]; intros a Ha; cbn [fold_left length].
+  - change (10 ^ Z.of_nat 0) with 1. lia.
+  - pose proof (dval_range d) as R.
+    specialize (IH (10 * a + dval d) ltac:(lia)).
+    rewrite Nat2Z.inj_succ, Z.pow_succ_r by lia.
+    assert (P : 0 < 10 ^ Z.of_nat (length t)) by (apply Z.pow_pos_nonneg; lia).
+    nia.
+Qed.
+Lemma zdigits_bound ds : 0 <= zdigits ds < 10 ^ Z.of_nat (length ds).
+Proof.
+  split; [apply zdigits_nonneg|]. pose proof (zdigits_acc_bound ds 0 ltac:(lia)) as B.
+  unfold zdigits. lia.
+Qed.
+Lemma zdigits_bound_le ds n : (length ds <= n)%nat -> 0 <= zdigits ds < 10 ^ Z.of_nat n.
+Proof.
+  intros H. pose proof (zdigits_bound ds) as B.
+  assert (10 ^ Z.of_nat (length ds) <= 10 ^ Z.of_nat n) by (apply Z.pow_le_mono_r; lia). lia.
+Qed.
+
+Definition small (d : dec) : Prop := 0 <= mant d < 2 ^ 53 /\ -22 <= e10 d <= 22.
+
+Lemma small_fixed wi wfr x : fixed_wf wi wfr x = true -> (wi + wfr <= 15)%nat -> small (fixed_val x).
+Proof.
+  intros H L. apply andb_true_iff in H as [H1 H2]. apply Nat.eqb_eq in H1. apply Nat.eqb_eq in H2.
+  unfold small, fixed_val, fixed_digits. cbn [mant e10].
+  pose proof (zdigits_bound_le (fx_int x ++ fx_frac x) 15 ltac:(rewrite app_length; lia)) as B.
+  change (10 ^ Z.of_nat 15) with 1000000000000000 in B. change (2 ^ 53) with 9007199254740992. lia.
+Qed.
+Lemma small_sfrac x : sfrac_wf 8 x = true -> small (sfrac_val x).
+Proof.
+  intros H. apply Nat.eqb_eq in H. unfold small, sfrac_val. cbn [mant e10].
+  pose proof (zdigits_bound_le (sf_frac x) 8 ltac:(lia)) as B.
+  change (10 ^ Z.of_nat 8) with 100000000 in B. change (2 ^ 53) with 9007199254740992. rewrite H. cbn. lia.
+Qed.
+Lemma small_expo x : expo_wf x = true -> small (expo_val x).
+Proof.
+  intros H. apply Nat.eqb_eq in H. unfold small, expo_val. cbn [mant e10].
+  pose proof (zdigits_bound_le (ex_mant x) 5 ltac:(lia)) as B.
+  change (10 ^ Z.of_nat 5) with 100000 in B. change (2 ^ 53) with 9007199254740992.
+  pose proof (dval_range (ex_edig x)). destruct (ex_eneg x); lia.
+Qed.
+Lemma small_ecc p : padint_wf 7 p = true -> small (mkdec false (padint_val p) (-7)).
+Proof.
+  intros H. apply andb_true_iff in H as [H _]. apply Nat.eqb_eq in H. unfold small, padint_val. cbn [mant e10].
+  pose proof (zdigits_bound_le (pi_digs p) 7 ltac:(lia)) as B.
+  change (10 ^ Z.of_nat 7) with 10000000 in B. change (2 ^ 53) with 9007199254740992. lia.
+Qed.
+
+Lemma values_small f : wf f = true ->
+  let v := values f in
+  small (epoch_day v) /\ small (mean_motion_derivative v) /\ small (mean_motion_sec_derivative v) /\
+  small (bstar v) /\ small (inclination v) /\ small (right_ascension v) /\ small (excentricity v) /\
+  small (arg_perigee v) /\ small (mean_anomaly v) /\ small (mean_motion v).
+Proof.
+  intros Hwf. pose proof (wf_inv f Hwf) as W. cbv zeta. unfold values.
+  cbn [epoch_day mean_motion_derivative mean_motion_sec_derivative bstar inclination right_ascension
+       excentricity arg_perigee mean_anomaly mean_motion].
+  split; [apply (small_fixed _ _ _ (w_ed f W)); cbn; lia|].
+  split; [apply (small_sfrac _ (w_nd f W))|].
+  split; [apply (small_expo _ (w_ndd f W))|].
+  split; [apply (small_expo _ (w_bs f W))|].
+  split; [apply (small_fixed _ _ _ (w_inc f W)); cbn; lia|].
+  split; [apply (small_fixed _ _ _ (w_raan f W)); cbn; lia|].
+  split; [apply (small_ecc _ (w_ecc f W))|].
+  split; [apply (small_fixed _ _ _ (w_argp f W)); cbn; lia|].
+  split; [apply (small_fixed _ _ _ (w_ma f W)); cbn; lia|].
+  apply (small_fixed _ _ _ (w_mm f W)); cbn; lia.
+Qed.
+
+(* packaged statements for props/C02.v *)
+Lemma strip_and_read pre body post l1 l2 :
+  (allspace pre = true -> allspace post = true -> trimmed body -> strip (pre ++ body ++ post) = body) /\
+  (no_nl (strip l1) = true -> no_nl (strip l2) = true -> read_tle l1 l2 = Some (strip l1, strip l2)).
+Proof. split; [apply strip_spec|apply read_tle_strip]. Qed.
+
+Lemma encoded_accepted f : wf f = true ->
+  length (line1 f) = 69%nat /\ length (line2 f) = 69%nat /\ check_tle (line1 f) (line2 f) = Accept.
+Proof.
+  intros H. destruct (encoded_lengths f H) as [A B].
+  split; [exact A|split; [exact B|apply check_tle_encode]].
+Qed.
